@@ -8,7 +8,7 @@ ID = "C16"
 CRATE = "c03"
 COQ_DIR = "C16"
 COQ_DEPS = ["C03"]
-PROFILES = ["debug"]
+PROFILES = ["debug", "release"]
 CORR_IMPORT = "From RlibV Require Import C03.Model C03.Corr C16.Model C16.Corr.\nOpen Scope Z_scope."
 AUDIT_IMPORT = ("From Coq Require Import ZArith List Bool.\nImport ListNotations.\n"
                 "From RlibV Require Import C03.Model C03.Corr C03.Proofs C16.Model C16.Corr C16.Proofs C16.ProofsStrict C16.ProofsHist C16.Properties.\nOpen Scope Z_scope.")
